@@ -53,7 +53,9 @@ size_t gclmulchunker::next_cut(const py::buffer& buffer, bool final = false) {
             return size / 2;
         else
             return max_length;
-    } else if (!final && size < max_length)
+    } else if (!final && size < max_length + (-max_length & 3))
+        // The last candidate window may extend up to 3 bytes beyond max_length
+        // (when it's not a multiple of 4). Wait for those bytes, too
         return 0;
 
     for (i = 4; i < max_length; i += 4) {
